@@ -7,17 +7,22 @@ wrappers, which are calls of the last two) and `get_all_segments_in_group` as us
 Mathlib-free, executable, total.  Bug-for-bug: it says what the code DOES (on the tree with the C15 repair of the
 duplicate-id check; the unrepaired id logic is kept as `pickIdOld`).
 
-A call that raises ends the history (the property only speaks about sequences of calls that each returned
-normally), so a step returns `Except Err State` and partial mutation before a raise is not represented.
+A step returns `Except Err State` (the property only speaks about sequences of calls that each returned normally);
+what a RAISING call leaves behind (a user group created and filled before `seg_type` is found missing, segments
+added before `add_unbranched_segments` fails at its last line, groups optimised before a `RecursionError`) is the
+separate function `leaveWith` (second pass), so that histories in which the caller catches the exception and goes on
+can be run as well (`runCaught`).
 
-Conventions: `fraction_along` travels as the integer `4 * fraction` (inputs are multiples of 1/4); Python `None`
-and `""` for a group id are both the empty string (both are falsy and never found by `get_segment_group`);
-segment ids are naturals.
+Conventions: `fraction_along` travels as the integer `4 * fraction` (inputs are multiples of 1/4); a group id
+`None` and a group id `""` are both falsy and never found by `get_segment_group`; as group ids they are both the
+empty string, a group created with id `None` carries `idNone := true` (so the two are different list entries, as in
+Python).  Segment ids are integers as STORED (`Segment.id` after the generated `_cast(int, …)`); an id passed in
+another lexical form (`"5"`, `5.5`: the docstring's declared type is `str`) is the operation `addSegmentLex`.
 -/
 namespace NmlVerif.Builder
 
 inductive Err where
-  | valueError | exception | indexError | recursionError
+  | valueError | exception | indexError | recursionError | unboundLocalError
 deriving Repr, DecidableEq, Inhabited
 
 inductive SegType where
@@ -43,9 +48,16 @@ def parseType : Option String → Option SegType
   | some "dendrite" => some .dendrite
   | _ => none
 
+/-- a point argument (`prox` / `dist`): a good 4-list, `None`/`[]` (falsy: no proximal), a list with fewer than 4
+    entries (`IndexError` caught and printed, the local stays unbound), a diameter the schema refuses (`ValueError`
+    from `component_factory`) -/
+inductive Pt where
+  | ok | absent | short | badDiam
+deriving Repr, DecidableEq, Inhabited
+
 structure Seg where
-  id : Nat
-  parent : Option Nat          -- `parent.segments`
+  id : Int
+  parent : Option Int          -- `parent.segments`
   frac4 : Int                  -- 4 * `parent.fraction_along` (meaningful with a parent only)
   hasProx : Bool
   name : String
@@ -55,9 +67,10 @@ deriving Repr, DecidableEq, Inhabited
 
 structure Group where
   id : String
-  members : List Nat
+  members : List Int
   includes : List String
   nlx : Option String
+  idNone : Bool := false       -- created by `add_segment_group(None)`: `id` is `None`, not `""`
 deriving Repr, DecidableEq, Inhabited
 
 inductive PKind where
@@ -70,11 +83,23 @@ structure BioProp where
   group : String
 deriving Repr, DecidableEq, Inhabited
 
+/-- a `<channelDensity>` as `add_channel_density` / `add_channel_density_v("ChannelDensity", …)` builds it -/
+structure ChanDens where
+  id : String
+  ionChannel : String
+  condDensity : String
+  erev : String
+  group : String
+  ion : String
+deriving Repr, DecidableEq, Inhabited
+
 structure State where
   segs : List Seg
   groups : List Group
   memb : List BioProp      -- biophysical_properties.membrane_properties.*
   intra : List BioProp     -- biophysical_properties.intracellular_properties.*
+  chans : List ChanDens := []    -- biophysical_properties.membrane_properties.channel_densities
+  docIncs : List String := []    -- `nml_cell_doc.includes` (hrefs) of the document passed to `add_channel_density*`
 deriving Repr, DecidableEq, Inhabited
 
 /-- which `optimise_segment_group` the tree has: the shipped one (`false`) or the one repaired for C14 (`true`) -/
@@ -82,15 +107,15 @@ structure Cfg where
   optFixed : Bool
 deriving Repr, DecidableEq, Inhabited
 
-def State.ids (s : State) : List Nat := s.segs.map (·.id)
+def State.ids (s : State) : List Int := s.segs.map (·.id)
 
 /-! ### small list helpers (Python loops `for x in l: if x not in acc: acc.append(x)`) -/
 
-def dedupAux : List Nat → List Nat → List Nat
+def dedupAux : List Int → List Int → List Int
   | acc, [] => acc
   | acc, x :: xs => if x ∈ acc then dedupAux acc xs else dedupAux (acc ++ [x]) xs
 
-def dedup (l : List Nat) : List Nat := dedupAux [] l
+def dedup (l : List Int) : List Int := dedupAux [] l
 
 def dedupStrAux : List String → List String → List String
   | acc, [] => acc
@@ -117,7 +142,7 @@ def isDefaultName (g : String) : Bool :=
 
 /-! ### `get_all_segments_in_group` -/
 
-def resolveIncs (rec : String → Except Err (List Nat)) : List String → List Nat → Except Err (List Nat)
+def resolveIncs (rec : String → Except Err (List Int)) : List String → List Int → Except Err (List Int)
   | [], acc => .ok acc
   | u :: us, acc =>
     match rec u with
@@ -125,7 +150,7 @@ def resolveIncs (rec : String → Except Err (List Nat)) : List String → List 
     | .error e => .error e
 
 /-- fuel = recursion depth; running out of it is Python's `RecursionError` (an include cycle) -/
-def resolveAux (segIds : List Nat) (gs : List Group) : Nat → String → Except Err (List Nat)
+def resolveAux (segIds : List Int) (gs : List Group) : Nat → String → Except Err (List Int)
   | 0, _ => .error .recursionError
   | f+1, g =>
     match look gs g with
@@ -133,7 +158,7 @@ def resolveAux (segIds : List Nat) (gs : List Group) : Nat → String → Except
     | some G => resolveIncs (resolveAux segIds gs f) G.includes (dedup G.members)
 
 /-- `cell.get_all_segments_in_group(g)` (a chain of includes without a cycle is at most `|groups|` deep) -/
-def resolve (s : State) (g : String) : Except Err (List Nat) :=
+def resolve (s : State) (g : String) : Except Err (List Int) :=
   resolveAux s.ids s.groups (s.groups.length + 1) g
 
 /-! ### `reorder_segment_groups` -/
@@ -152,16 +177,16 @@ def reorder (s : State) : State := { s with groups := reorderGroups s.groups }
 
 /-! ### `optimise_segment_group(s)` -/
 
-def insertSorted (a : Nat) : List Nat → List Nat
+def insertSorted (a : Int) : List Int → List Int
   | [] => [a]
   | b :: l => if a ≤ b then a :: b :: l else b :: insertSorted a l
 
 /-- `natsort.natsorted` on integer segment ids = numeric order -/
-def natSort (l : List Nat) : List Nat := l.foldr insertSorted []
+def natSort (l : List Int) : List Int := l.foldr insertSorted []
 
 /-- shipped loop: the survivors of every include are appended one include after the other -/
-def survivorsCur (rec : String → Except Err (List Nat)) (members : List Nat) :
-    List String → List Nat → Except Err (List Nat)
+def survivorsCur (rec : String → Except Err (List Int)) (members : List Int) :
+    List String → List Int → Except Err (List Int)
   | [], acc => .ok acc
   | u :: us, acc =>
     match rec u with
@@ -169,7 +194,7 @@ def survivorsCur (rec : String → Except Err (List Nat)) (members : List Nat) :
     | .error e => .error e
 
 /-- repaired loop (C14): a member survives iff no include covers it -/
-def coveredBy (rec : String → Except Err (List Nat)) : List String → List Nat → Except Err (List Nat)
+def coveredBy (rec : String → Except Err (List Int)) : List String → List Int → Except Err (List Int)
   | [], acc => .ok acc
   | u :: us, acc =>
     match rec u with
@@ -177,14 +202,14 @@ def coveredBy (rec : String → Except Err (List Nat)) : List String → List Na
     | .error e => .error e
 
 /-- `seg_group.members = …; seg_group.includes = …` on the first group with id `g` -/
-def setMI (g : String) (ms : List Nat) (is : List String) (s : State) : State :=
+def setMI (g : String) (ms : List Int) (is : List String) (s : State) : State :=
   { s with groups := updGroup g (fun G => { G with members := ms, includes := is }) s.groups }
 
-def setM (g : String) (ms : List Nat) (s : State) : State :=
+def setM (g : String) (ms : List Int) (s : State) : State :=
   { s with groups := updGroup g (fun G => { G with members := ms }) s.groups }
 
 /-- the members that stay, by the tree's variant of the loop -/
-def prune (cfg : Cfg) (s1 : State) (members : List Nat) (includes : List String) : Except Err (List Nat) :=
+def prune (cfg : Cfg) (s1 : State) (members : List Int) (includes : List String) : Except Err (List Int) :=
   if cfg.optFixed then
     match coveredBy (resolve s1) includes [] with
     | .ok cov => .ok (members.filter (fun m => !cov.contains m))
@@ -223,15 +248,16 @@ def finish (cfg : Cfg) (s : State) : Except Err State := finishWith (optimiseAll
 
 /-- `add_segment_group(group_id, neuro_lex_id)`: an existing group is kept as it is; otherwise
     `morphology.add("SegmentGroup", id=…)`, which does not append an object equal to one already in the list (only
-    possible for a group without id: `get_segment_group` never finds those) -/
-def ensureGroup (s : State) (g : String) (nlx : Option String) : State :=
+    possible for a group without id: `get_segment_group` never finds those).  `isNone`: the id passed was `None`
+    (a group with id `None` and one with id `""` are different objects). -/
+def ensureGroup (s : State) (g : String) (nlx : Option String) (isNone : Bool := false) : State :=
   match findGroup s.groups g with
   | some _ => s
   | none =>
-    if ({ id := g, members := [], includes := [], nlx := nlx } : Group) ∈ s.groups then s
-    else { s with groups := s.groups ++ [{ id := g, members := [], includes := [], nlx := nlx }] }
+    if ({ id := g, members := [], includes := [], nlx := nlx, idNone := isNone } : Group) ∈ s.groups then s
+    else { s with groups := s.groups ++ [{ id := g, members := [], includes := [], nlx := nlx, idNone := isNone }] }
 
-def addMember (s : State) (g : String) (i : Nat) : State :=
+def addMember (s : State) (g : String) (i : Int) : State :=
   { s with groups := updGroup g (fun G => { G with members := G.members ++ [i] }) s.groups }
 
 def addInclude (s : State) (g : String) (u : String) : State :=
@@ -260,9 +286,10 @@ def setupDefault (s : State) (useConv : Bool) (names : List String) : State :=
     | none => setupLoopPartial names s
   else s
 
-/-- `setup_nml_cell(use_convention, overwrite, default_groups)` -/
+/-- `setup_nml_cell(use_convention, overwrite, default_groups)` (the document passed to `add_channel_density` is
+    not part of the cell: `overwrite` leaves it alone) -/
 def setupNmlCell (s : State) (useConv overwrite : Bool) (names : List String) : State :=
-  let s0 : State := if overwrite then { segs := [], groups := [], memb := [], intra := [] } else s
+  let s0 : State := if overwrite then { segs := [], groups := [], memb := [], intra := [], chans := [], docIncs := s.docIncs } else s
   setupDefault s0 useConv names
 
 /-- `component_factory("Cell", id=…)`: a fresh cell after `setup_nml_cell()` -/
@@ -271,10 +298,13 @@ def init : State := setupNmlCell { segs := [], groups := [], memb := [], intra :
 /-! ### `add_segment` -/
 
 structure AddSeg where
-  hasProx : Bool
-  segId : Option Nat
+  prox : Pt
+  dist : Pt := .ok
+  segId : Option Int             -- the id as it will be STORED (`int(seg_id)`), `none` = automatic
+  idText : Option String := none -- `str(seg_id)` where that is not the decimal form of the stored id (`"2.5"`, `"True"`)
+  lex : Bool := false            -- `seg_id` does not compare equal (`==`) to the int it is stored as: `"5"`, `5.5`
   name : Option String
-  parent : Option Nat          -- id of the `Segment` object passed as `parent`
+  parent : Option Int            -- id of the `Segment` object passed as `parent`
   frac4 : Int
   groupId : Option String
   useConv : Bool
@@ -283,16 +313,35 @@ structure AddSeg where
   optimise : Bool
 deriving Repr, DecidableEq, Inhabited
 
-/-- repaired id logic: `None` means automatic (`len(segments)`); an id in use is refused -/
-def pickId (s : State) (segId : Option Nat) : Except Err Nat :=
-  let id := segId.getD s.segs.length
-  if id ∈ s.ids then .error .valueError else .ok id
+/-- the id the segment will get: given, or `len(self.morphology.segments)` -/
+def autoId (s : State) (a : AddSeg) : Int := a.segId.getD (s.segs.length : Int)
 
-/-- the shipped id logic: `if seg_id:` (0 counts as not given) and the `raise` is swallowed by its own `except` -/
-def pickIdOld (s : State) (segId : Option Nat) : Except Err Nat :=
-  match segId with
-  | some (n+1) => .ok (n+1)
-  | _ => .ok s.segs.length
+/-- `group_id` names a default group other than the one of `seg_type` (`"all"`, or `"dendrite_group"` for a soma
+    segment): what the proposed repair `fixes/C15-default-group-name.patch` refuses -/
+def foreignDefault (a : AddSeg) : Bool :=
+  match a.groupId with
+  | some g => isDefaultName g && g != (a.segType.getD "None") ++ "_group"
+  | none => false
+
+/-- everything `add_segment` refuses before it changes anything, after the parent/fraction checks: an id in use
+    (`ValueError`); with the proposed repairs also a negative id (`idFx`) and a foreign default group name (`nmFx`).
+    Returns the id. -/
+def pickCfg (idFx nmFx : Bool) (s : State) (a : AddSeg) : Except Err Int :=
+  -- on the tree as it is `get_segment("5")` compares `segment.id == "5"` and never finds anything
+  if (idFx = true ∨ a.lex = false) ∧ autoId s a ∈ s.ids then .error .valueError
+  else if idFx = true ∧ autoId s a < 0 then .error .valueError
+  else if nmFx = true ∧ a.useConv = true ∧ foreignDefault a = true then .error .valueError
+  else .ok (autoId s a)
+
+/-- the tree as it is (duplicate-id repair of the first pass in place) -/
+def pickId : State → AddSeg → Except Err Int := pickCfg false false
+
+/-- the id logic before the first-pass repair: `if seg_id:` (0 counts as not given) and the `raise` is swallowed by
+    its own `except` -/
+def pickIdOld (s : State) (a : AddSeg) : Except Err Int :=
+  match a.segId with
+  | some n => if n = 0 then .ok (s.segs.length : Int) else .ok n
+  | none => .ok (s.segs.length : Int)
 
 def membersLen (s : State) (g : String) : Nat :=
   match findGroup s.groups g with
@@ -300,20 +349,20 @@ def membersLen (s : State) (g : String) : Nat :=
   | none => 0
 
 /-- `if group_id:` look the group up or create it, append the member -/
-def userStep (s : State) (gid : String) (id : Nat) : State :=
+def userStep (s : State) (gid : String) (id : Int) : State :=
   if gid ≠ "" then addMember (ensureGroup s gid none) gid id else s
 
 /-- `if use_convention:` make sure 'all' and the default group of the type exist (reordering), then add the user
     group (if any, and if it is not the default group itself) or else the segment to both; reorder if asked -/
-def convStep (s1 : State) (gid : String) (id : Nat) (t : SegType) (ro : Bool) : State :=
+def convStep (s1 : State) (gid : String) (id : Int) (t : SegType) (ro : Bool) : State :=
   let s2 := setupDefault s1 true ["all", t.group]
   let s3 :=
     if gid ≠ "" ∧ gid ≠ t.group then addInclude (addInclude s2 t.group gid) "all" gid
     else addMember (addMember s2 t.group id) "all" id
   if ro then reorder s3 else s3
 
-/-- the segment's name: given, or `Seg<n-1>_<group>` with `n = len(seg_group.members)`, or `Seg<id>` -/
-def segName (s4 : State) (a : AddSeg) (gid : String) (id : Nat) : String :=
+/-- the segment's name: given, or `Seg<n-1>_<group>` with `n = len(seg_group.members)`, or `Seg<seg_id>` -/
+def segName (s4 : State) (a : AddSeg) (gid : String) (id : Int) : String :=
   let nm := match a.name with
     | some n => if n ≠ "" then some n else none
     | none => none
@@ -321,10 +370,10 @@ def segName (s4 : State) (a : AddSeg) (gid : String) (id : Nat) : String :=
   | some n => n
   | none =>
     if gid ≠ "" then "Seg" ++ toString ((membersLen s4 gid : Int) - 1) ++ "_" ++ gid
-    else "Seg" ++ toString id
+    else "Seg" ++ a.idText.getD (toString id)
 
-def mkSeg (s4 : State) (a : AddSeg) (gid : String) (id : Nat) (t : Option SegType) : Seg :=
-  { id := id, parent := a.parent, frac4 := a.frac4, hasProx := a.hasProx, name := segName s4 a gid id,
+def mkSeg (s4 : State) (a : AddSeg) (gid : String) (id : Int) (t : Option SegType) : Seg :=
+  { id := id, parent := a.parent, frac4 := a.frac4, hasProx := a.prox == .ok, name := segName s4 a gid id,
     stype := t, ugroup := if gid ≠ "" then some gid else none }
 
 /-- `self.morphology.segments.append(segment)`, then optimise if asked -/
@@ -332,13 +381,15 @@ def appendSeg (opt : State → Except Err State) (s4 : State) (seg : Seg) (optim
   let s5 : State := { s4 with segs := s4.segs ++ [seg] }
   if optimise then opt s5 else .ok s5
 
-def addSegmentWith (pick : State → Option Nat → Except Err Nat) (opt : State → Except Err State) (s : State) (a : AddSeg) :
+def addSegmentWith (pick : State → AddSeg → Except Err Int) (opt : State → Except Err State) (s : State) (a : AddSeg) :
     Except Err State :=
+  if a.prox = .badDiam ∨ a.dist = .badDiam then .error .valueError else
   if s.segs.length > 0 ∧ a.parent.isNone then .error .exception else
   if a.parent.isSome ∧ ¬ (0 ≤ a.frac4 ∧ a.frac4 ≤ 4) then .error .valueError else
-  match pick s a.segId with
+  match pick s a with
   | .error e => .error e
   | .ok id =>
+    if a.prox = .short ∨ a.dist = .short then .error .unboundLocalError else
     let gid := a.groupId.getD ""
     let s1 := userStep s gid id
     if a.useConv then
@@ -356,7 +407,7 @@ def addSegmentOld (cfg : Cfg) := addSegmentWith pickIdOld (optimiseAll cfg)
 
 structure AddUnb where
   npoints : Nat
-  parent : Option Nat
+  parent : Option Int
   frac4 : Int
   groupId : Option String
   useConv : Bool
@@ -365,11 +416,11 @@ structure AddUnb where
   optimise : Bool
 deriving Repr, DecidableEq, Inhabited
 
-def lastId (s : State) : Option Nat := s.segs.getLast?.map (·.id)
+def lastId (s : State) : Option Int := s.segs.getLast?.map (·.id)
 
 /-- the `add_segment` call made for one point: always a proximal, automatic id and name, no reorder, optimise -/
-def unbSeg (u : AddUnb) (parent : Option Nat) (frac4 : Int) : AddSeg :=
-  { hasProx := true, segId := none, name := none, parent := parent, frac4 := frac4, groupId := u.groupId,
+def unbSeg (u : AddUnb) (parent : Option Int) (frac4 : Int) : AddSeg :=
+  { prox := .ok, segId := none, name := none, parent := parent, frac4 := frac4, groupId := u.groupId,
     useConv := u.useConv, segType := u.segType, reorder := false, optimise := true }
 
 /-- the segments after the first: each hangs on the distal end of the one before -/
@@ -384,7 +435,7 @@ def addUnbranchedWith (add : State → AddSeg → Except Err State) (opt : State
     Except Err State :=
   if u.npoints < 2 then .error .indexError else
   let gid := u.groupId.getD ""
-  let s1 := ensureGroup s gid (some sectionNlx)
+  let s1 := ensureGroup s gid (some sectionNlx) u.groupId.isNone
   match add s1 (unbSeg u u.parent u.frac4) with
   | .error e => .error e
   | .ok s2 =>
@@ -429,13 +480,23 @@ def nmlIdOK (s : String) : Bool :=
   | [] => false
   | c :: cs => isIdStart c && cs.all isIdChar
 
+/-- `NeuroLexId`: `[a-zA-Z0-9_:]*` -/
+def nlxOK (s : String) : Bool := s.toList.all (fun c => isIdChar c || c == ':')
+
 def PKind.units : PKind → List String
   | .spikeThresh => ["V", "mV"]
   | .initMembPotential => ["V", "mV"]
   | .specificCapacitance => ["F_per_m2", "uF_per_cm2"]
   | .resistivity => ["ohm_cm", "kohm_cm", "ohm_m"]
 
+def condDensityUnits : List String := ["S_per_m2", "mS_per_cm2", "S_per_cm2"]
+def voltageUnits : List String := ["V", "mV"]
+
 def BioProp.ok (p : BioProp) : Bool := quantityOK p.kind.units p.value && nmlIdOK p.group
+
+def ChanDens.ok (c : ChanDens) : Bool :=
+  nmlIdOK c.id && nmlIdOK c.ionChannel && quantityOK condDensityUnits c.condDensity && quantityOK voltageUnits c.erev
+  && nmlIdOK c.group && nmlIdOK c.ion
 
 /-- `membrane_properties.add(kind, validate=False, value=…, segment_groups=…)`: an equal entry is not re-added -/
 def addMembrane (s : State) (p : BioProp) : State :=
@@ -446,18 +507,35 @@ def addIntra (s : State) (p : BioProp) : Except Err State :=
   if ¬ p.ok then .error .valueError
   else if p ∈ s.intra then .ok s else .ok { s with intra := s.intra ++ [p] }
 
-/-- what `validate(recursive=True)` and the schema ask of a cell built with these helpers -/
+/-- `add_channel_density(doc, cd_id, ion_channel, cond_density, erev, group_id, ion, ion_chan_def_file)` (and
+    `add_channel_density_v("ChannelDensity", doc, file, …)`): `add_membrane_property("ChannelDensity",
+    validate=False, …)`, then the channel's definition file is included in the document unless it already is -/
+def addChan (s : State) (c : ChanDens) (defFile : String) : State :=
+  let s1 : State := if c ∈ s.chans then s else { s with chans := s.chans ++ [c] }
+  if defFile.length > 0 then
+    (if defFile ∈ s1.docIncs then s1 else { s1 with docIncs := s1.docIncs ++ [defFile] })
+  else s1
+
+/-- what `validate(recursive=True)` and the schema ask of a cell built with these helpers (hand characterisation;
+    `Props/C15Valid.lean` proves that it implies acceptance by the binding-level model of `validate` of C02/C03) -/
 def shapeOK (s : State) : Bool :=
   !s.segs.isEmpty
   && s.memb.any (·.kind == .spikeThresh) && s.memb.any (·.kind == .initMembPotential)
   && s.memb.any (·.kind == .specificCapacitance)
-  && s.memb.all (·.ok) && s.intra.all (·.ok)
-  && s.groups.all (fun G => nmlIdOK G.id && G.includes.all nmlIdOK)
+  && s.memb.all (·.ok) && s.intra.all (·.ok) && s.chans.all (·.ok)
+  && s.groups.all (fun G => nmlIdOK G.id && G.includes.all nmlIdOK && (match G.nlx with | some n => nlxOK n | none => true))
+
+/-- the one thing the schema asks beyond `validate`: `NonNegativeInteger` ids (the generated `validate_` has no
+    check for a facet-less restriction of a builtin type) -/
+def idsNonNeg (s : State) : Bool :=
+  s.segs.all (fun x => decide (0 ≤ x.id) && (match x.parent with | some p => decide (0 ≤ p) | none => true))
+  && s.groups.all (fun G => G.members.all (fun m => decide (0 ≤ m)))
 
 /-! ### operations and histories -/
 
 inductive Op where
   | addSegment (a : AddSeg)
+  | addSegmentLex (a : AddSeg)     -- `add_segment` with `seg_id` in another lexical form than `int` (`"5"`, `5.5`)
   | addUnbranched (u : AddUnb)
   | addSegmentGroup (g : Option String)
   | addUnbranchedSegmentGroup (g : Option String)
@@ -467,25 +545,28 @@ inductive Op where
   | optimise
   | addMembrane (p : BioProp)
   | addIntra (p : BioProp)
+  | addChannelDensity (c : ChanDens) (defFile : String)
 deriving Repr, DecidableEq, Inhabited
 
-def stepWith (pick : State → Option Nat → Except Err Nat) (opt : State → Except Err State) (s : State) : Op → Except Err State
-  | .addSegment a => addSegmentWith pick opt s a
+def stepWith (pick : State → AddSeg → Except Err Int) (opt : State → Except Err State) (s : State) : Op → Except Err State
+  | .addSegment a => addSegmentWith pick opt s { a with lex := false }
+  | .addSegmentLex a => addSegmentWith pick opt s { a with lex := true }
   | .addUnbranched u => addUnbranchedWith (addSegmentWith pick opt) opt s u
-  | .addSegmentGroup g => .ok (ensureGroup s (g.getD "") none)
-  | .addUnbranchedSegmentGroup g => .ok (ensureGroup s (g.getD "") (some sectionNlx))
+  | .addSegmentGroup g => .ok (ensureGroup s (g.getD "") none g.isNone)
+  | .addUnbranchedSegmentGroup g => .ok (ensureGroup s (g.getD "") (some sectionNlx) g.isNone)
   | .setupDefault c names => .ok (setupDefault s c names)
   | .setupNmlCell c o names => .ok (setupNmlCell s c o names)
   | .reorder => .ok (reorder s)
   | .optimise => opt s
   | .addMembrane p => .ok (addMembrane (setupNmlCell s false false ["all", "soma_group"]) p)
   | .addIntra p => addIntra (setupNmlCell s false false ["all", "soma_group"]) p
+  | .addChannelDensity c f => .ok (addChan (setupNmlCell s false false ["all", "soma_group"]) c f)
 
 def step (cfg : Cfg) := stepWith pickId (optimiseAll cfg)
 def stepOld (cfg : Cfg) := stepWith pickIdOld (optimiseAll cfg)
 
 /-- a history: every call returned normally, or the first raise ends it -/
-def runWith (pick : State → Option Nat → Except Err Nat) (opt : State → Except Err State) : State → List Op → Except Err State
+def runWith (pick : State → AddSeg → Except Err Int) (opt : State → Except Err State) : State → List Op → Except Err State
   | s, [] => .ok s
   | s, op :: ops =>
     match stepWith pick opt s op with
@@ -494,5 +575,90 @@ def runWith (pick : State → Option Nat → Except Err Nat) (opt : State → Ex
 
 def run (cfg : Cfg) := runWith pickId (optimiseAll cfg)
 def runOld (cfg : Cfg) := runWith pickIdOld (optimiseAll cfg)
+
+/-! ### what a raising call leaves behind (second pass)
+
+`leaveWith … s op` is the state of the cell after the call `op`, whether it returned or raised: equal to the result
+of `stepWith` when that is `.ok` (`leave_of_ok`), and otherwise the cell with whatever the call had done before the
+exception.  `optL` = the state a raising `optimise_segment_groups()` leaves. -/
+
+/-- `optimise_segment_group(g)` that raises: nothing written when the group is not found; otherwise the de-duplicated
+    members and includes have been assigned before `get_all_segments_in_group` raised -/
+def optimiseGroupLeave (s : State) (g : String) : State :=
+  match findGroup s.groups g with
+  | none => s
+  | some G => setMI g (dedup G.members) (dedupStr G.includes) s
+
+def optimiseListLeave (cfg : Cfg) : List String → State → State
+  | [], s => s
+  | g :: gs, s =>
+    match optimiseGroup cfg s g with
+    | .ok s' => optimiseListLeave cfg gs s'
+    | .error _ => optimiseGroupLeave s g
+
+def optimiseAllLeave (cfg : Cfg) (s : State) : State := optimiseListLeave cfg (s.groups.map (·.id)) s
+
+def optOrLeave (opt : State → Except Err State) (optL : State → State) (s : State) : State :=
+  match opt s with
+  | .ok s' => s'
+  | .error _ => optL s
+
+def addSegmentLeave (pick : State → AddSeg → Except Err Int) (opt : State → Except Err State) (optL : State → State)
+    (s : State) (a : AddSeg) : State :=
+  if a.prox = .badDiam ∨ a.dist = .badDiam then s else
+  if s.segs.length > 0 ∧ a.parent.isNone then s else
+  if a.parent.isSome ∧ ¬ (0 ≤ a.frac4 ∧ a.frac4 ≤ 4) then s else
+  match pick s a with
+  | .error _ => s
+  | .ok id =>
+    if a.prox = .short ∨ a.dist = .short then s else
+    let gid := a.groupId.getD ""
+    let s1 := userStep s gid id
+    if a.useConv then
+      match parseType a.segType with
+      | none => s1                                   -- the user group exists and holds the id of a segment that is not there
+      | some t =>
+        let s4 := convStep s1 gid id t a.reorder
+        let s5 : State := { s4 with segs := s4.segs ++ [mkSeg s4 a gid id (some t)] }
+        if a.optimise then optOrLeave opt optL s5 else s5
+    else
+      let s5 : State := { s1 with segs := s1.segs ++ [mkSeg s1 a gid id none] }
+      if a.optimise then optOrLeave opt optL s5 else s5
+
+def unbRestLeave (add : State → AddSeg → Except Err State) (addL : State → AddSeg → State) (u : AddUnb) : Nat → State → Option State × State
+  | 0, s => (some s, s)
+  | k+1, s =>
+    match add s (unbSeg u (lastId s) 4) with
+    | .ok s' => unbRestLeave add addL u k s'
+    | .error _ => (none, addL s (unbSeg u (lastId s) 4))
+
+def addUnbranchedLeave (add : State → AddSeg → Except Err State) (addL : State → AddSeg → State)
+    (opt : State → Except Err State) (optL : State → State) (s : State) (u : AddUnb) : State :=
+  if u.npoints < 2 then s else
+  let gid := u.groupId.getD ""
+  let s1 := ensureGroup s gid (some sectionNlx) u.groupId.isNone
+  match add s1 (unbSeg u u.parent u.frac4) with
+  | .error _ => addL s1 (unbSeg u u.parent u.frac4)
+  | .ok s2 =>
+    match unbRestLeave add addL u (u.npoints - 2) s2 with
+    | (none, sL) => sL
+    | (some s3, _) =>
+      let s4 := if u.reorder then reorder s3 else s3
+      if u.optimise then optOrLeave opt optL s4 else s4     -- the final `get_segment_group` changes nothing
+
+def leaveWith (pick : State → AddSeg → Except Err Int) (opt : State → Except Err State) (optL : State → State)
+    (s : State) : Op → State
+  | .addSegment a => addSegmentLeave pick opt optL s { a with lex := false }
+  | .addSegmentLex a => addSegmentLeave pick opt optL s { a with lex := true }
+  | .addUnbranched u => addUnbranchedLeave (addSegmentWith pick opt) (addSegmentLeave pick opt optL) opt optL s u
+  | .optimise => optOrLeave opt optL s
+  | .addIntra p => (match addIntra (setupNmlCell s false false ["all", "soma_group"]) p with | .ok s' => s' | .error _ => s)
+  | op => (match stepWith pick opt s op with | .ok s' => s' | .error _ => s)
+
+/-- a history in which the caller catches every exception and goes on -/
+def runCaught (pick : State → AddSeg → Except Err Int) (opt : State → Except Err State) (optL : State → State) :
+    State → List Op → State
+  | s, [] => s
+  | s, op :: ops => runCaught pick opt optL (leaveWith pick opt optL s op) ops
 
 end NmlVerif.Builder
